@@ -27,6 +27,36 @@ def optList (j : J) : Option (Option J) :=
 def sizeTag (n : Nat) : String :=
   if n ≤ 4 then s!"n={n}" else if n ≤ 60 then "n<=60" else if n ≤ 1024 then "n<=1024" else "n>1024"
 
+/-- every successor names a node of the graph -/
+def wfG (g : G) : Bool := g.all fun out => out.all (· < g.size)
+
+/-- Inputs inside the contract of the graph entry points: successors and roots name existing nodes; a
+keep list names distinct existing nodes and its edges exist, start and end at kept nodes; removed nodes and
+edges exist. Generated cases always are; what this guards is the shrinker, which deletes list elements
+blindly (a graph whose node list was cut still names the nodes that are gone - the unchanged code crashes
+on that too, and such a case is no witness of anything). -/
+def wellFormed (op : String) (ins : List J) : Bool :=
+  let rootOk (g : G) (r : J) : Bool := match r.nat? with | some v => v < g.size | none => true
+  match op, ins with
+  | "keep", [gJ, nodesJ, edgesJ] | "remove", [gJ, nodesJ, edgesJ] =>
+    (match parseG gJ, nodesJ.nats?, edgesJ.natss? with
+     | some g, some nodes, some edges =>
+       wfG g && nodes.all (· < g.size) &&
+       (op != "keep" || nodes.eraseDups.length == nodes.length) &&
+       edges.all (fun e =>
+         let u := e.getD 0 0; let k := e.getD 1 0
+         e.length == 2 && u < g.size && k < (g.getD u []).length &&
+         (op != "keep" || (nodes.contains u && nodes.contains ((g.getD u []).getD k 0))))
+     | _, _, _ => true)
+  | "equal", [g1J, g2J] => (match parseG g1J, parseG g2J with | some a, some b => wfG a && wfG b | _, _ => true)
+  | _, gJ :: rest =>
+    if ["pre", "post", "euler", "scc", "simp", "bigraph", "idom", "df", "dot"].contains op then
+      (match parseG gJ with
+       | some g => wfG g && (if ["pre", "post", "euler", "idom", "df"].contains op then (match rest with | r :: _ => rootOk g r | [] => true) else true)
+       | none => true)
+    else true
+  | _, _ => true
+
 def handleSub (kr : String) (gJ nodesJ edgesJ outJ : J) : Verdict :=
   match parseG gJ, nodesJ.nats?, edgesJ.natss?, outJ.list? with
   | some g, some nodes, some edges, some goNodes =>
